@@ -12,6 +12,21 @@ def nfield(x):
     return norm(x or '')
 
 
+def gfield(f, e):
+    """field an event touches, including accesses made through a local reference alias of a member (range-for over a member, auto &q = _queue)"""
+    v = e.get('field')
+    if v:
+        return norm(v)
+    if e.k in ('read', 'write', 'call') and (e.get('recv') or e.get('path') or '').startswith('local:'):
+        from .core import efield
+        c = f.setdefault('_aliasfield', {})
+        if e['id'] not in c:
+            c[e['id']] = efield(f, e)
+        r = c[e['id']]
+        return r if r and not r.startswith('?') else ''
+    return ''
+
+
 class LockAnalysis:
     def __init__(self, db, guarded):
         """guarded: {normalised field decl: normalised mutex field decl}"""
@@ -164,18 +179,24 @@ class LockAnalysis:
         self._stack.add(k)
         held = self.held_map(f)
         out = {}
+        # a function that receives the caller's lock (unique_lock&) and touches guarded state after it has released that lock itself:
+        # no caller can discharge this need, it is recorded under '!mutex' and propagated unconditionally
+        has_param_lock = any('unique_lock' in p['type'] and '&' in p['type'] for p in f['params'])
         for e in f.events():
             h = held.get(e.get('id'), frozenset())
             if e.k in ('read', 'write', 'call', 'delete'):
-                fld = nfield(e.get('field'))
+                fld = gfield(f, e)
                 m = self.guarded.get(fld)
                 if m and not e.get('init') and not self.is_held(h, m) and not self.exempt(f, fld):
                     if not (e.k == 'call' and self._is_lock_ctor_arg(e)):
-                        out.setdefault(m, (e.get('loc'), '%s of %s' % ('call ' + norm(e.get('callee')) if e.k == 'call' else e.k, fld), [f['nname']]))
+                        key = ('!' + m) if has_param_lock else m
+                        out.setdefault(key, (e.get('loc'), '%s of %s' % ('call ' + norm(e.get('callee')) if e.k == 'call' else e.k, fld) + (' after the caller\'s lock was released' if has_param_lock else ''), [f['nname']]))
             for c in self.callees(f, e):
                 for m, (loc, text, chain) in self.needs(c).items():
-                    if not self.is_held(h, m) and not self.exempt(f, m):
+                    if m.startswith('!'):
                         out.setdefault(m, (loc, text, [f['nname']] + chain))
+                    elif not self.is_held(h, m) and not self.exempt(f, m):
+                        out.setdefault(('!' + m) if has_param_lock else m, (loc, text, [f['nname']] + chain))
         self._stack.discard(k)
         self._needs[k] = out
         return out
@@ -240,17 +261,17 @@ def check_guarded(ctx, db, rid, guarded, classes, per_instance=False, floor=1):
             held = la.held_map(f)
             # obligations: one per guarded access site
             for e in f.events():
-                fld = nfield(e.get('field'))
+                fld = gfield(f, e)
                 if e.k in ('read', 'write', 'call', 'delete') and fld in guarded and not e.get('init'):
                     nacc += 1
             if not la.is_entry(f):
                 continue
             nd = la.needs(f)
             for m, (loc, text, chain) in nd.items():
-                ctx.ob(rid, f, loc, False, '%s without holding %s (reached from entry point %s)' % (text, m.split('::')[-1], f['nname']),
+                ctx.ob(rid, f, loc, False, '%s without holding %s (reached from entry point %s)' % (text, m.lstrip('!').split('::')[-1], f['nname']),
                        detail={'call_chain': chain}, desc='unlocked %s via %s' % (text, chain[-1]))
             if not nd:
-                acc = [e for e in f.events() if nfield(e.get('field')) in guarded and e.k in ('read', 'write', 'call')]
+                acc = [e for e in f.events() if gfield(f, e) in guarded and e.k in ('read', 'write', 'call')]
                 ctx.ob(rid, f, (acc[0]['loc'] if acc else f['key']), True, 'entry point %s reaches guarded state only under the lock' % f['nname'])
     ctx.cover.setdefault('guarded_access_sites', 0)
     ctx.cover['guarded_access_sites'] = max(ctx.cover['guarded_access_sites'], nacc)
